@@ -223,6 +223,9 @@ class LaplaceTransformer(UnilateralForwardTransformer):
 
         m += 1
 
+        if len(factors) > m + 1:
+            raise ValueError('Not expsin, too many factors')
+
         if len(factors) == m + 1 and not (factors[m].is_Function and factors[m].func is sym.Heaviside):
             raise ValueError('Not expsin, no Heaviside')
 
